@@ -244,7 +244,9 @@ impl PathSliceList {
                                 }
                                 None => {
                                     write!(prepend, "({})===true||", sub_s)?;
-                                    write!(s, "}},X({}),{{", sub_s)?;
+                                    // a field taken from a spread operand may replace (or stop replacing) another field:
+                                    // every field the operand's tree touches counts as changed
+                                    write!(s, "}},Q.c({}),{{", sub_s)?;
                                     need_object_assign = true;
                                     next_need_comma_sep = false;
                                 }
